@@ -211,7 +211,7 @@ class Optic:
             # object distance: only the object surface moves (also when the
             # object is, or becomes, infinitely far away)
             self.surface_group.surfaces[0].geometry.cs.z = \
-                float(positions[1][0]) - value
+                float(positions[1][0]) - float(np.squeeze(value))
             return
         delta_t = value - positions[surface_number+1] + \
             positions[surface_number]
